@@ -1011,9 +1011,13 @@ class SpecArray(object):
         if not spectra and not params:
             raise ValueError("At least one of `spectra` or `params` must be True")
 
+        # Ensure single chunk along the input core dimension
+        spec1d = self.oned()
+        if spec1d.chunks is not None:
+            spec1d = spec1d.chunk({attrs.FREQNAME: -1})
         fp, hs, gamma = xr.apply_ufunc(
             fit_jonswap_params,
-            self.oned(),
+            spec1d,
             self.freq,
             self.fp(smooth=True),
             self.hs(),
@@ -1057,9 +1061,13 @@ class SpecArray(object):
         if not spectra and not params:
             raise ValueError("At least one of `spectra` or `params` must be True")
 
+        # Ensure single chunk along the input core dimension
+        spec1d = self.oned()
+        if spec1d.chunks is not None:
+            spec1d = spec1d.chunk({attrs.FREQNAME: -1})
         fp, hs, gw = xr.apply_ufunc(
             fit_gaussian_params,
-            self.oned(),
+            spec1d,
             self.freq,
             self.fp(smooth=True),
             self.hs(),
